@@ -553,4 +553,43 @@ theorem design_mem {ne : NumEnv} {d : Decl} {ts : List Slice} {x : Config} (hw :
   rw [dimsAll_normalized] at this
   exact memSpace_unconstrained hu this
 
+
+/-! ### ConfigSpace samples completed with the canonical inactive values -/
+
+/-- contract of a ConfigSpace sample `s` w.r.t. the completed configuration `x`: a value is
+present exactly for the active hyperparameters and is a member of its dimension -/
+def sampleOK : List Hp → List (Option Val) → List Bool → Bool
+  | [], [], [] => true
+  | h :: hs, v :: vs, a :: as =>
+    (match v with
+     | some w => a && memDim h.dim w
+     | none => !a) && sampleOK hs vs as
+  | _, _, _ => false
+
+theorem fillInactive_memAll : ∀ {hps : List Hp} {s : List (Option Val)} {act : List Bool} {x : Config},
+    fillInactive hps s = some x → sampleOK hps s act = true → memAll hps x act = true
+  | [], [], [], x, h, _ => by simp [fillInactive] at h; subst h; rfl
+  | h :: hs, v :: vs, a :: as, x, hx, hs' => by
+    simp only [fillInactive] at hx
+    split at hx
+    · rename_i w ws hw hws
+      cases hx
+      simp only [sampleOK, Bool.and_eq_true] at hs'
+      simp only [memAll, Bool.and_eq_true]
+      refine ⟨?_, fillInactive_memAll hws hs'.2⟩
+      cases v with
+      | some w' =>
+        simp only [Bool.and_eq_true] at hs'
+        cases hw
+        simp [hs'.1.1, hs'.1.2]
+      | none =>
+        have ha : a = false := by simpa using hs'.1
+        subst ha
+        simpa using hw
+    · cases hx
+  | [], [], _ :: _, _, _, h => by simp [sampleOK] at h
+  | [], _ :: _, _, _, h, _ => by simp [fillInactive] at h
+  | _ :: _, [], _, _, h, _ => by simp [fillInactive] at h
+  | _ :: _, _ :: _, [], _, _, h => by simp [sampleOK] at h
+
 end DH.Mem
